@@ -344,9 +344,13 @@ class ProgGen:
                     st[2] = [self.addr_expr(ctx)]
                 elif mn == 'jr':
                     lo, hi = max(self.gstart, a - 128), min(self.gend, a + 127)
+                    if lo > hi:           # the estimated address lies outside GLOBAL: any target will do
+                        lo = hi = max(self.gstart, min(self.gend, a))
                     st[2] = [num(rng.choice([lo, hi, a, min(hi, a + 2), max(lo, a - 2), rng.randint(lo, hi)]))]
                 elif mn == 'jre':
                     lo, hi = max(self.gstart, a + 1 - 20), min(self.gend, a + 1 + 20)
+                    if lo > hi:
+                        lo = hi = max(self.gstart, min(self.gend, a))
                     st[2] = [num(rng.choice([lo, hi, a, rng.randint(lo, hi)]))]
                 elif mn == 'jz':
                     page = a & ~0xff
@@ -544,6 +548,12 @@ class ProgGen:
 
 
 def gen_program(rng, prof, tier):
+    # a generator slip (an empty range for some unusual configuration) must not stop a check: draw again
+    for _ in range(20):
+        try:
+            return ProgGen(rng, prof, tier).generate()
+        except (ValueError, IndexError, KeyError):
+            continue
     return ProgGen(rng, prof, tier).generate()
 
 
